@@ -190,3 +190,32 @@ void ob_c20_resize_bounded_dim(A& a, const std::array<size_t,R>& req_, const std
 #define INSTB(R) template void ob_c20_resize_bounded_dim<hs_fb_row<float,24>,false,R,10>(hs_fb_row<float,24>&, const std::array<size_t,R>&, const std::array<size_t,R>&);
 #define INSTBC(R) template void ob_c20_resize_bounded_dim<hs_fb_col<float,24>,true,R,11>(hs_fb_col<float,24>&, const std::array<size_t,R>&, const std::array<size_t,R>&);
 INSTB(1) INSTB(2) INSTB(3) INSTBC(1) INSTBC(2)
+
+// ---------------- bounded-dim shape AND bounded buffer (both static_vector): a request whose element count exceeds the buffer's
+// capacity is refused and leaves dimension, shape length of the strides and buffer length as they were - also when the request has
+// another rank than the array
+template <class T, size_t N> using hs_hb_row = na::ndarray_t<nmtools::utl::static_vector<T,N>, sv4_t>;
+template <class A, size_t CAP, size_t R2, long KIND>
+void ob_c20_bounded_refuse(A& a, const std::array<size_t,R2>& req_)
+{
+    const auto req = req_;
+    ASSUME(a.shape_.size() <= 4); ASSUME(a.strides_.size() <= 4); ASSUME(a.offset_.strides_.size() <= 4); ASSUME(a.offset_.shape_.size() <= 4);
+    ASSUME(a.data_.size() <= CAP);
+    const size_t old_dim = a.shape_.size(), old_sdim = a.strides_.size(), old_len = a.data_.size();
+    size_t n = 1; for_<R2>([&](auto I){ ASSUME(rd<I.value>(req) < (1ul<<20)); n *= rd<I.value>(req); });
+    if (n > CAP) {
+        const bool ok = a.resize(req);
+        OBLIGE("C20.bounded.refuses_more_than_capacity", !ok, KIND, R2, CAP);
+        OBLIGE("C20.bounded.refuse.dim_unchanged", (size_t)a.shape_.size() == old_dim, KIND, R2, CAP);
+        OBLIGE("C20.bounded.refuse.strides_dim_unchanged", (size_t)a.strides_.size() == old_sdim, KIND, R2, CAP);
+        OBLIGE("C20.bounded.refuse.len_unchanged", (size_t)a.data_.size() == old_len, KIND, R2, CAP);
+    } else {
+        const bool ok = a.resize(req);
+        if (ok) {
+            OBLIGE("C20.bounded.accept.dim", (size_t)a.shape_.size() == R2, KIND, R2, CAP);
+            OBLIGE("C20.bounded.accept.len", (size_t)a.data_.size() == n, KIND, R2, CAP);
+        }
+    }
+}
+#define INSTBR(R2) template void ob_c20_bounded_refuse<hs_hb_row<float,12>,12,R2,12>(hs_hb_row<float,12>&, const std::array<size_t,R2>&);
+INSTBR(1) INSTBR(2) INSTBR(3)
